@@ -35,7 +35,8 @@ SCRATCH = "/dev/shm" if os.path.isdir("/dev/shm") and os.access("/dev/shm", os.W
 PID = "C25"
 INVARIANTS = ["TypeOK", "C25_FreshWhenCheckable", "C25_StaleOnlyWhenUncheckable", "C25_NeverReloadWhenOff",
               "C25_HitWhenFresh", "C25_Capacity", "C25_Size0Recompiles", "C25_OrderIsRecency",
-              "C25_SelectFirstExisting", "C25_SelectFindsSomething", "C25_FreshFlag"]
+              "C25_SelectFirstExisting", "C25_SelectFindsSomething", "C25_FreshFlag",
+              "C25_BytecodeOfItsSource", "C25_LoadRunsCurrentSource", "C25_BytecodeReuse"]
 PROPERTIES = ["C25_EvictsLRU", "C25_UnboundedKeeps"]
 ACTIONS = ["Get", "Select", "Modify", "Delete", "Add", "Touch", "Overlay"]
 ALL_KINDS = ["dict", "fnstr", "fntriple", "fs"]
@@ -53,7 +54,7 @@ MCReloads == {core.tla_str(set(reloads))}
     return d / "MCTemplateCache.tla"
 
 
-def cfg(nversions, graph):
+def cfg(nversions, graph, usebc=False):
     s = f"""CONSTANTS
   Names <- MCNames
   NVersions = {nversions}
@@ -62,6 +63,7 @@ def cfg(nversions, graph):
   ReloadSet <- MCReloads
   NoVal = NoVal
   EmitGraph = {"TRUE" if graph else "FALSE"}
+  UseBC = {"TRUE" if usebc else "FALSE"}
 SPECIFICATION Spec
 """
     if graph:
@@ -71,10 +73,10 @@ SPECIFICATION Spec
     return s
 
 
-def tlc(tag, names, nversions, size, kinds, reloads, graph, workers, coverage=False):
+def tlc(tag, names, nversions, size, kinds, reloads, graph, workers, coverage=False, usebc=False):
     d = core.workdir(PID, f"mc_{tag}")
     mod = mc_module(d, names, size, kinds, reloads)
-    return core.run_tlc(PID, "MCTemplateCache", cfg(nversions, graph), workers=workers, name=f"tlc_{tag}",
+    return core.run_tlc(PID, "MCTemplateCache", cfg(nversions, graph, usebc), workers=workers, name=f"tlc_{tag}",
                         extra_modules=[mod], coverage=coverage, timeout=3000, heap="3g")
 
 
@@ -89,9 +91,9 @@ def text_of(n, v):
 class Real:
     """A real jinja2 Environment with a loader whose content the driver controls."""
 
-    def __init__(self, size, kind, auto_reload, names, nversions):
+    def __init__(self, size, kind, auto_reload, names, nversions, usebc=False):
         import jinja2
-        from jinja2 import loaders
+        from jinja2 import bccache, loaders
 
         self.j = jinja2
         self.kind, self.size, self.names = kind, size, list(names)
@@ -135,7 +137,36 @@ class Real:
             self.loader = FS(self.dir)
         else:
             raise core.MachineryError(kind)
-        self.env = jinja2.Environment(loader=self.loader, cache_size=size, auto_reload=auto_reload)
+        self.bclog = bclog = []
+        self.bcc = None
+        self.nversions = nversions
+        if usebc:
+            class Mem(bccache.BytecodeCache):
+                """a bytecode cache over a dict that logs what BaseLoader.load does with it"""
+
+                def __init__(self):
+                    self.store, self.name_of = {}, {}
+
+                def get_cache_key(self, name, filename=None):
+                    k = super().get_cache_key(name, filename)
+                    self.name_of[k] = name
+                    return k
+
+                def load_bytecode(self, bucket):
+                    data = self.store.get(bucket.key)
+                    if data is not None:
+                        bucket.bytecode_from_string(data)
+                    bclog.append(["hit" if bucket.code is not None else "miss", self.name_of[bucket.key]])
+
+                def dump_bytecode(self, bucket):
+                    bclog.append(["dump", self.name_of[bucket.key]])
+                    self.store[bucket.key] = bucket.bytecode_to_string()
+
+            self.bcc = Mem()
+            self.env = jinja2.Environment(loader=self.loader, cache_size=size, auto_reload=auto_reload,
+                                          bytecode_cache=self.bcc)
+        else:
+            self.env = jinja2.Environment(loader=self.loader, cache_size=size, auto_reload=auto_reload)
 
     def close(self):
         if self.dir:
@@ -180,6 +211,7 @@ class Real:
 
     def _use(self, fn):
         del self.log[:]
+        del self.bclog[:]
         try:
             res = self._version(fn().render())
         except self.j.TemplatesNotFound:
@@ -188,7 +220,33 @@ class Real:
             res = ["notfound", e.name, 0]
         except Exception as e:  # noqa
             res = ["raise", type(e).__name__, 0]
-        return res, list(self.log)
+        return res, list(self.log), list(self.bclog)
+
+    def project_bc(self):
+        """{name: [[versions whose checksum the stored entry is accepted for], version its code renders]}
+        through the public Bucket API (a bucket made for a source takes the stored bytes or resets)."""
+        if self.bcc is None:
+            return None
+        from jinja2.bccache import Bucket
+        out = {}
+        for key, data in self.bcc.store.items():
+            n = self.bcc.name_of[key]
+            sums, code = [], None
+            for v in range(1, self.nversions + 1):
+                b = Bucket(self.env, key, self.bcc.get_source_checksum(text_of(n, v)))
+                b.bytecode_from_string(data)
+                if b.code is not None:
+                    sums.append(v)
+                    code = b.code
+            r = ["no-code", "", 0]
+            if code is not None:
+                try:
+                    r = self._version(self.env.template_class.from_code(
+                        self.env, code, self.env.make_globals(None), None).render())
+                except Exception as e:  # noqa
+                    r = ["raise", type(e).__name__, 0]
+            out[n] = [sums, r[2] if r[0] == "render" and r[1] == n else r]
+        return out
 
     def project(self):
         """[(name, cached version, is_up_to_date)], least recently used first for the LRU,
@@ -211,7 +269,7 @@ class Real:
         return out
 
     def step(self, op):
-        """Apply one spec operation; returns (res, loads)."""
+        """Apply one spec operation; returns (res, loads, what the bytecode cache saw)."""
         k = op[0]
         if k == "get":
             return self._use(lambda: self.env.get_template(op[1]))
@@ -227,6 +285,9 @@ class Real:
             parent = self.env
             before = self.project()
             ov = parent.overlay()
+            if self.bcc is not None:
+                # the probe below would fill the (shared) bytecode cache: give it its own
+                parent.bytecode_cache = None
             # an overlay must not write into its parent's cache: load through a throw-away overlay
             probe = parent.overlay()
             for n in self.names:
@@ -234,15 +295,20 @@ class Real:
                     probe.get_template(n)
                 except self.j.TemplateNotFound:
                     pass
+            if self.bcc is not None:
+                parent.bytecode_cache = self.bcc
+                if ov.bytecode_cache is not self.bcc:
+                    return ["overlay-lost-the-bytecode-cache", "", 0], [], []
             del self.log[:]
+            del self.bclog[:]
             self.env = parent
             if self.project() != before:
                 self.env = ov
-                return ["overlay-wrote-into-parent-cache", "", 0], []
+                return ["overlay-wrote-into-parent-cache", "", 0], [], []
             self.env = ov
         else:
             raise core.MachineryError(f"unknown op {op}")
-        return ["none", "", 0], []
+        return ["none", "", 0], [], []
 
 
 def expected_projection(size, t, u):
@@ -252,9 +318,20 @@ def expected_projection(size, t, u):
     return [[n, m[n]["v"], bool(u[n])] for n in t["o"]]
 
 
-def compare(size, kind, ar, edge, res, loads, proj):
+def expected_bc(t):
+    return {n: [[e["sum"]], e["code"]] for n, e in t["bc"].items() if isinstance(e, dict)}
+
+
+def compare(size, kind, ar, edge, res, loads, proj, bcops=None, bcproj=None):
     """-> None | ("violation" | "drift", text)"""
     t = edge["t"]
+    if bcproj is not None:
+        # an environment with a bytecode cache: what the bytecode cache saw and holds is compared as well
+        wantbc = expected_bc(t)
+        if bcops != edge["bcops"] or bcproj != wantbc:
+            return "violation", (f"expected {edge['res']} bytecode cache asked {edge['bcops']} holds {wantbc} "
+                                 f"(name: [versions it is valid for], version its code renders); "
+                                 f"got {res} bytecode cache asked {bcops} holds {bcproj}")
     u = edge["u"] if isinstance(edge["u"], dict) else {}
     want = expected_projection(size, t, u)
     got = proj
@@ -288,7 +365,7 @@ def key_of(st):
 def walk_component(args):
     """Replay every edge of one (size, kind, auto_reload) component of the state graph."""
     core.use_repo()
-    size, kind, ar, names, nversions, lines, max_viol = args
+    size, kind, ar, names, nversions, lines, max_viol, usebc = args
     # nodes
     ids = {}
     out = []           # out[i] = list of edge indexes
@@ -344,18 +421,18 @@ def walk_component(args):
                 q.append(y)
         return None
 
-    real = Real(size, kind, ar, names, nversions)
+    real = Real(size, kind, ar, names, nversions, usebc)
     cur = init
     trail = []
 
     def do_edge(ei, fresh):
         """Apply edge ei to the real system and compare; False when the real system diverged."""
         s, t, e = E[ei]
-        res, loads = real.step(e["a"])
+        res, loads, bcops = real.step(e["a"])
         proj = real.project()
         trail.append(e["a"])
         result["steps"] += 1
-        verdict = compare(size, kind, ar, e, res, loads, proj)
+        verdict = compare(size, kind, ar, e, res, loads, proj, bcops, real.project_bc())
         if verdict is None:
             if fresh and result["edges"] % 4001 == 1 and len(result["samples"]) < 2:
                 result["samples"].append({"size": size, "loader": kind, "auto_reload": ar,
@@ -364,12 +441,12 @@ def walk_component(args):
             return True
         what, msg = verdict
         case = {"kind": "graph", "size": size, "loader": kind, "auto_reload": ar, "names": names,
-                "nversions": nversions, "ops": list(trail), "expect": e}
+                "nversions": nversions, "ops": list(trail), "expect": e, "bytecode_cache": usebc}
         case = shorten(case, E, out, init, ei)
         rec = {"case": case,
                "what": f"cache_size={size} loader={kind} auto_reload={ar} after {case['ops'][-8:]}: {msg}",
                "fp": {"kind": "template-cache", "op": e["a"][0], "loader": kind, "size": size,
-                      "auto_reload": ar}}
+                      "auto_reload": ar, **({"bytecode_cache": True} if usebc else {})}}
         if what == "violation":
             result["violations"].append(rec)
         elif len(result["drift"]) < 5:
@@ -406,7 +483,7 @@ def walk_component(args):
             if not ok:
                 # the real system no longer corresponds to a spec state (or is stuck): fresh system
                 real.close()
-                real = Real(size, kind, ar, names, nversions)
+                real = Real(size, kind, ar, names, nversions, usebc)
                 cur = init
                 del trail[:]
                 result["restarts"] += 1
@@ -446,13 +523,15 @@ def shorten(case, E, out, init, bad):
 
 def run_case(case):
     """Re-run a recorded history on a fresh real system; -> None | (kind, message) for the last step."""
-    real = Real(case["size"], case["loader"], case["auto_reload"], case["names"], case["nversions"])
+    real = Real(case["size"], case["loader"], case["auto_reload"], case["names"], case["nversions"],
+                case.get("bytecode_cache", False))
     try:
-        res = loads = proj = None
+        res = loads = proj = bcops = None
         for op in case["ops"]:
-            res, loads = real.step(op)
+            res, loads, bcops = real.step(op)
             proj = real.project()
-        return compare(case["size"], case["loader"], case["auto_reload"], case["expect"], res, loads, proj)
+        return compare(case["size"], case["loader"], case["auto_reload"], case["expect"], res, loads, proj,
+                       bcops, real.project_bc())
     finally:
         real.close()
 
@@ -499,45 +578,66 @@ def run(ck):
         nv = 2 if quick else 3
         jobs.append((f"inv{size}", nm, nv, size, ALL_KINDS, both, False, 4 if quick or size >= 0 else 8,
                      quick and size == 2))
+    # capacity 3 (a cache that is being filled holds two templates with room for a third: recency gained
+    # during the fill-up decides the first eviction), 4 names so that a full cache still evicts
+    names4 = ["a", "b", "c", "d"]
+    jobs.append(("inv3", names4, 1 if quick else 2, 3, ["dict", "fs"] if quick else ALL_KINDS, both, False, 4, False))
+    # environments with a bytecode cache next to the template cache
+    bcjobs = [(f"invbc{size}", names2 if quick else names3, 2, size, ALL_KINDS, both, False, 4, False, True)
+              for size in ((1, 0) if quick else (0, 1, 2, -1))]
+    jobs += bcjobs
     # -- 2. graph export for the replay --------------------------------------------------------
     if quick:
         # the largest graph first, split in two so that its replay can start early; at size 2 the
         # stamp-comparing FunctionLoader (same spec behaviour as "fs") is left to sizes 0, 1, -1 and thorough
         gjobs = [("g2a", names3, 2, 2, ["fs"], both), ("g2b", names3, 2, 2, ["dict", "fnstr"], both),
                  ("g1", names3, 2, 1, ALL_KINDS, both), ("gu", names2, 2, -1, ALL_KINDS, both),
-                 ("g0", names3, 2, 0, ALL_KINDS, both)]
+                 ("g0", names3, 2, 0, ALL_KINDS, both),
+                 ("g3", names4, 1, 3, ["dict"], both),
+                 ("gbc1", names2, 2, 1, ["dict", "fs", "fnstr"], both, True),
+                 ("gbc0", names2, 2, 0, ["dict", "fntriple"], [True], True),
+                 ("gbcu", names2, 2, -1, ["fs"], [True], True)]
     else:
         gjobs = [("g0", names3, 3, 0, ALL_KINDS, both), ("g1", names3, 3, 1, ALL_KINDS, both),
                  ("gu3", names2, 3, -1, ALL_KINDS, both)]
         gjobs += [(f"g2{k}", names3, 3, 2, [k], both) for k in ALL_KINDS]
         gjobs += [(f"gu{k}", names3, 2, -1, [k], both) for k in ALL_KINDS]
+        gjobs += [("g3", names4, 1, 3, ALL_KINDS, both), ("g3n3", names3, 2, 3, ["dict", "fs"], both)]
+        gjobs += [(f"gbc{size}", names2, 2, size, ALL_KINDS, both, True) for size in (0, 1, 2, -1)]
+        gjobs += [("gbc1n3", names3, 2, 1, ["dict", "fs"], [True], True)]
+    gjobs = [g if len(g) == 7 else g + (False,) for g in gjobs]
     replayed = steps = total_edges = ntasks = unvisited = 0
     drift = []
     # workers are spawned, not forked: a forked worker would inherit the pipes of the TLC
     # subprocesses running in the threads and keep them open
     with ThreadPoolExecutor(4) as ex, \
             ProcessPoolExecutor(max_workers=16, mp_context=multiprocessing.get_context("spawn")) as pool:
-        gr = [ex.submit(tlc, tag, nm, nv, size, kinds, rl, True, 4) for (tag, nm, nv, size, kinds, rl) in gjobs]
+        gr = [ex.submit(tlc, tag, nm, nv, size, kinds, rl, True, 4, False, bcu)
+              for (tag, nm, nv, size, kinds, rl, bcu) in gjobs]
         inv = [ex.submit(tlc, *j) for j in jobs]
         # -- 3. replay on the real Environment: components are dispatched as soon as their graph is there
         futs = []
-        for (tag, nm, nv, size, kinds, rl), f in zip(gjobs, gr):
+        for (tag, nm, nv, size, kinds, rl, bcu), f in zip(gjobs, gr):
             r = f.result()
-            ck.add_tlc(r, f"TemplateCache graph cache_size={size} names={len(nm)} versions={nv} kinds={kinds}")
+            ck.add_tlc(r, f"TemplateCache graph cache_size={size} names={len(nm)} versions={nv} kinds={kinds}"
+                          + (" bytecode_cache" if bcu else ""))
             comps, n, ops = graph_edges(r)
             r.out = ""
             if n == 0:
                 raise core.MachineryError(f"TemplateCache graph {tag}: TLC printed no edges")
             total_edges += n
-            need = {"get", "select", "modify", "delete", "add", "overlay"} | ({"touch"} if set(kinds) & {"fs", "fntriple"} else set())
+            need = {"get", "select", "delete", "add", "overlay"} | ({"touch"} if set(kinds) & {"fs", "fntriple"} else set())
+            if nv > 1:
+                need.add("modify")
             if need - ops:
                 raise core.MachineryError(f"vacuous graph {tag}: operations never taken: {need - ops}")
             for (k, ar), lines in sorted(comps.items(), key=lambda kv: -len(kv[1])):
-                futs.append(((size, k, ar), pool.submit(walk_component, (size, k, ar, nm, nv, lines, 3))))
+                futs.append(((size, k, ar), pool.submit(walk_component, (size, k, ar, nm, nv, lines, 3, bcu))))
             del comps
         for j, f in zip(jobs, inv):
             r = f.result()
-            ck.add_tlc(r, f"TemplateCache invariants cache_size={j[3]} names={len(j[1])} versions={j[2]}")
+            ck.add_tlc(r, f"TemplateCache invariants cache_size={j[3]} names={len(j[1])} versions={j[2]}"
+                          + (" bytecode_cache" if len(j) > 9 and j[9] else ""))
             if j[8]:
                 ck.require_coverage(r, ACTIONS)
         ntasks = len(futs)
